@@ -394,6 +394,15 @@ class World:
             if cand:
                 others = [rnd.choice(cand)] + others
                 self.ctx.count("c16:set_operand:other-kind-node")
+        if op in ("discard", "remove", "isub", "iand", "ixor") and \
+                members and rnd.random() < 0.4:
+            # the twin of a member (same UUID, another load of the file):
+            # for the collection it is a stranger like any other
+            tw = [t for x in members for t in self.twins_of(x)]
+            if tw:
+                others = [rnd.choice(tw)] + (others if op != "discard"
+                                             and op != "remove" else [])
+                self.ctx.count("c16:set_operand:twin-of-member")
         # operand form for the batch operations: a plain container, another
         # owning collection of the same kind (its members are then moved
         # while it is being iterated), or the collection itself
